@@ -482,6 +482,9 @@ fn scenario(rt: &tokio::runtime::Runtime, ffi_rt: &FfiRuntime, line: &str) -> St
                 Ok(Ok(s)) => s,
                 _ => "pending-forever".into(),
             };
+            // shutdown_background tears the task down asynchronously: wait until the channel reports it gone
+            // (a request racing the teardown is not what this scenario is about)
+            wait_until(Duration::from_secs(10), || rt.block_on(ch.enable()).is_err());
             let r2 = rt.block_on(async { tokio::time::timeout(Duration::from_secs(10), rust_request(&ch, op, 1000, n, 1000)).await });
             let r2 = r2.unwrap_or_else(|_| "pending-forever".into());
             format!("ffi:{rc}/before={before}/{ev};{rc2}/{ev2} rust:{r};{r2}")
